@@ -134,7 +134,10 @@ def target_kind(exp, caller, tgt):
         el = RX.strip_array(cls)
         if not el.startswith("L"):
             return "array-primitive"
-        return "array-internal" if (el, tgt[1], tgt[2]) in exp.methods else "array-object"
+        dims = len(cls) - len(el)
+        if (el, tgt[1], tgt[2]) in exp.methods:
+            return "array-internal"
+        return "array-object" + (":dim%d" % dims if dims > 1 else "")
     if tgt == caller:
         return "self"
     if tgt in exp.methods:
@@ -219,7 +222,7 @@ def judge_c13(exp, run, stats=None):
                                 "(no analysed method has that class, name and descriptor)" % (site, got_t, ma.is_external(), tgt), caller))
                     account(cca, cma, ca, ma, off, op)
                     continue
-                if tk == "array-object" and got_t != tgt and stats is not None:
+                if tk.startswith("array-object") and got_t != tgt and stats is not None:
                     stats["unjudged:stub of an array receiver is filed under the element class"] += 1
                 first = stubs.setdefault(got_t, ma)
                 stub_sites[got_t] += 1
@@ -384,16 +387,18 @@ def judge_c14(exp, run, stats=None):
 
 # =================================================================================================== C15
 def type_kind(exp, me, t):
-    if t.startswith("["):
-        el = RX.strip_array(t)
-        if not el.startswith("L"):
-            return "array-of-primitive"
-        return "array-of-class"
-    if t == me[0]:
-        return "self"
-    if t in exp.dex_of_class:
-        return "internal" + (":cross-dex" if where(exp, me[0], t) == "cross-dex" else "")
-    return "external"
+    """Operand kind of a new-instance / const-class.  Arrays of a class count for their ELEMENT class whatever the number of
+    dimensions (androguard files `[LB;` under LB;: the same must hold for `[[LB;`, `[[[LB;` ...)."""
+    el = RX.strip_array(t)
+    dims = len(t) - len(el)
+    if not el.startswith("L"):
+        return "array-of-primitive"
+    pre = "array-dim%s:" % (dims if dims <= 3 else "N") if dims else ""
+    if el == me[0]:
+        return pre + "self"
+    if el in exp.dex_of_class:
+        return pre + "internal" + (":cross-dex" if where(exp, me[0], el) == "cross-dex" else "")
+    return pre + "external"
 
 
 def judge_c15(exp, run, stats=None):
@@ -445,33 +450,34 @@ def judge_c15(exp, run, stats=None):
            "const-class": (collections.defaultdict(set), collections.defaultdict(set))}
     opt = {"new-instance": (collections.defaultdict(set), collections.defaultdict(set)),
            "const-class": (collections.defaultdict(set), collections.defaultdict(set))}
-    self_refd = {t for rel in (exp.news, exp.consts) for (me, off, t) in rel if t == me[0]}
+    self_refd = {me[0] for rel in (exp.news, exp.consts) for (me, off, t) in rel if RX.strip_array(t) == me[0]}
     self_seen = {True: [], False: []}
     for rel, op in ((exp.news, "new-instance"), (exp.consts, "const-class")):
         for (me, off, t) in sorted(rel):
             tk = type_kind(exp, me, t)
-            if tk == "self":
-                ca_, ma_ = dx.get_class_analysis(t), run.ma(me)
+            if tk.endswith("self"):
+                ca_, ma_ = dx.get_class_analysis(RX.strip_array(t)), run.ma(me)
                 lst_ = (ca_.get_xref_new_instance() if op == "new-instance" else ca_.get_xref_const_class()) if ca_ else ()
                 self_seen[(ma_, off) in lst_].append("%s %s at +%d in %s->%s%s" % ((op, t, off) + me))
+                if stats is not None:
+                    stats["%s:%s" % (op, tk)] += 1
+                    stats["unjudged:self operand (listed or not, but uniformly)"] += 1
+                opt[op][0][RX.strip_array(t)].add((ma_, off))
+                opt[op][1][id(ma_)].add((RX.strip_array(t), off))
+                continue
             if stats is not None:
                 stats["%s:%s" % (op, tk)] += 1
             if tk == "array-of-primitive":
                 continue                                  # no class: nothing may appear anywhere (caught as 'unexpected')
             ma = run.ma(me)
-            el = RX.strip_array(t)
-            if tk in ("self", "array-of-class"):
-                # the statement speaks of instructions "on another class": presence is not demanded, absence neither
-                if stats is not None:
-                    stats["unjudged:%s operand (present or absent both accepted)" % tk] += 1
-                opt[op][0][el].add((ma, off))
-                opt[op][1][id(ma)].add((el, off))
-                continue
-            req[op][0][t].add((ma, off))
-            req[op][1][id(ma)].add((t, off))
-            ca = dx.get_class_analysis(t)
+            el = RX.strip_array(t)                        # the class the xref belongs to, whatever the array dimension
+            req[op][0][el].add((ma, off))
+            req[op][1][id(ma)].add((el, off))
+            ca = dx.get_class_analysis(el)
             key = "class-use:%s:%s" % (op, tk)
-            if t in self_refd:
+            if t != el:
+                pass                                       # array operand: the dimension key says it
+            elif el in self_refd:
                 key = "class-use:self-then-other"          # the operand class also references itself somewhere
                 if stats is not None:
                     stats["class-use of a class that also references itself"] += 1
@@ -485,7 +491,7 @@ def judge_c15(exp, run, stats=None):
             mlist = ma.get_xref_new_instance() if op == "new-instance" else ma.get_xref_const_class()
             if (ma, off) not in clist:
                 out.append((key, "%s: missing from ClassAnalysis(%s).get_xref_%s(): %r"
-                            % (site, t, op.replace("-", "_"), sorted((mtrip(m), o) for m, o in clist)), me))
+                            % (site, el, op.replace("-", "_"), sorted((mtrip(m), o) for m, o in clist)), me))
             if (ca, off) not in mlist:
                 out.append((key, "%s: missing from the method's get_xref_%s(): %r"
                             % (site, op.replace("-", "_"), sorted((c.name, o) for c, o in mlist)), me))
@@ -711,7 +717,8 @@ def xm3_space(ctx):
             "invoke_ops": X.INVOKE_OPS, "invoke_targets": {k: "%s->%s%s" % (v[0], v[1], X.mdesc(v[2], v[3])) for k, v in X.METHODS.items()},
             "field_ops_in_sequences": X.FIELD_OPS, "field_ops_in_singles": X.FIELD_OPS_ALL,
             "field_targets": {k: "%s->%s %s" % v for k, v in X.FIELDS.items()},
-            "strings": X.STRINGS, "string_ops": X.STRING_OPS, "types": X.TYPES, "type_ops": X.TYPE_OPS,
+            "strings": X.STRINGS, "string_ops": X.STRING_OPS, "const_class_types": X.CONST_CLASS_TYPES, "new_instance_types": X.NEW_INSTANCE_TYPES,
+            "max_dimension_type_alone": "const-class on '[' x 255 + LB;", "type_ops": X.TYPE_OPS,
             "noise": ["%s %s" % n for n in X.NOISE],
             "payload_mid_method": ["fill-array-data + goto + fill-array-data-payload", "packed-switch + goto + packed-switch-payload"],
             "fixed_bodies": "A.n and D.r use the same targets (sharing across methods / DEX files); B.t instantiates B itself before "
